@@ -219,6 +219,8 @@ class Replay:
         batch = [host.make(vtypes[0], 1 + (m % 2), None) for m in range(k)]
         if src == 'same':
             batch[j - 1] = list(view)[0]
+        elif src == 'freedup':
+            batch[j - 1] = batch[j % k]          # the same free node at two positions of the batch
         else:
             batch[j - 1] = self.other_item(src)
         if op == 'append':
